@@ -4,7 +4,9 @@ Every rule decides on *values*: the anchored functions of pyyeti/srs.py (the six
 `_dosrs*` workers, `vrs`, the peak selectors) are evaluated on symbols by `c03_sem.Ev3` - module-level helpers followed, module-level
 constants folded, option strings seeded as values, undecided tests explored both ways - and the values that reach `lfilter`, the peak
 function, the response-history stores, the allocations and the `return` are compared with the expected expressions.  No rule looks at
-the spelling of a local name, at statement order, at which arm of an `if` holds what, or at whether a block sits in a helper."""
+the spelling of a local name, at statement order, at which arm of an `if` holds what, or at whether a block sits in a helper.
+A comparison that fails on a value which goes through a call the evaluator could not resolve (a table entry it cannot follow, a selector that is
+not a module-level function) is reported as *not decided* (ANALYSIS-ERROR), never as a violation (`_check`, `c03_sem.unresolved`)."""
 from __future__ import annotations
 
 import ast
@@ -510,17 +512,14 @@ def _parallel_setup(ctx, S_):
         raise Unsupported("parallel path: initializer arity")
     SI = Sem3(ctx, ifn, SRS, env=dict(zip(ip, initargs)), exclude=_opaque_helpers(ctx))
     glob = {}
-    for n in ast.walk(ifn):
-        if isinstance(n, ast.Global):
-            for g in n.names:
-                v = SI.ev.env.get(g)
-                if v is None or is_unknown(v) or isinstance(v, (tuple, DictValue)):
-                    continue
-                v = _strip_shared(v)
-                u = unfn(v) if not is_unknown(v) and not isinstance(v, (tuple, DictValue)) else None
-                if u and u[0] == "tuple":
-                    continue            # an array created in shared memory from its shape: an output buffer
-                glob[g] = v
+    for g, v in SI.ev.globals.items():          # every name declared `global` that the initializer - or a helper it calls - binds
+        if v is None or is_unknown(v) or isinstance(v, (tuple, DictValue)):
+            continue
+        v = _strip_shared(v)
+        u = unfn(v) if not is_unknown(v) and not isinstance(v, (tuple, DictValue)) else None
+        if u and u[0] == "tuple":
+            continue            # an array created in shared memory from its shape: an output buffer
+        glob[g] = v
     return m.funcs[wname], glob
 
 
@@ -597,7 +596,7 @@ def r3_dc_gain(ctx):
                 for S_, _recs in srs_regime(ctx, st=st, ic="steady", time="primary", getresp=gr, parallel="yes"):
                     wfn, glob = _parallel_setup(ctx, S_)
                     recs = []
-                    W = Sem3(ctx, wfn, SRS, cond=_stype_fixed(st), env=glob, hooks=(_lfilter_hook(recs),), exclude=_opaque_helpers(ctx))
+                    W = Sem3(ctx, wfn, SRS, cond=_stype_fixed(st), module_state=glob, hooks=(_lfilter_hook(recs),), exclude=_opaque_helpers(ctx))
                     _check_addback(ctx, st, wfn.name, W, recs, wfn)
             except Unsupported as e:
                 ctx.error(f"{st}: add-back in the worker (getresp={gr})", srsfn, str(e))
@@ -628,8 +627,11 @@ def _resp_entries(S_, respval):
     return out
 
 
-def _alloc_rows(v):
-    """empty((r, H, LF)) -> r"""
+def _alloc_rows(S_, v):
+    """empty((r, H, LF)) -> r (an array object created in a helper stands for the expression it was created from)"""
+    n = sym_of(v)
+    if n is not None and S_.ev.is_array_object(n) and ("<init:%s>" % n) in S_.ev.env:
+        v = S_.ev.env["<init:%s>" % n]
     u = unfn(v) if v is not None and not is_unknown(v) and not isinstance(v, (tuple, DictValue)) else None
     if u and u[0] in ("empty", "zeros") and not isinstance(u[1][0], str):
         sh = unfn(u[1][0])
@@ -760,9 +762,10 @@ def r4_windows(ctx):
                     continue
                 start = rows_of(f["prim"]) if time == "residual" else F.const(0)
                 seen += [v for k in ("hist", "t", "sr") for v in ent.get(k, [])]
-                r = _alloc_rows(ent.get("hist", [None])[0])
+                r = _alloc_rows(S_, ent.get("hist", [None])[0])
                 if r is None or not r.equals(f["rows"] - start):
-                    bad_h.append({"allocated": repr(ent.get("hist", [None])[0])[:200], "rows of the window": repr(f["rows"] - start)})
+                    h0 = ent.get("hist", [None])[0]
+                    bad_h.append({"allocated": repr(S_.ev.env.get("<init:%s>" % sym_of(h0), h0))[:200], "rows of the window": repr(f["rows"] - start)})
                 else:
                     rows_set.append(r)
                 t = _arange(ent.get("t", [None])[-1], f["sr"])
@@ -1061,7 +1064,7 @@ def r7_eqsine(ctx):
                             other.append(repr(val)[:200])
                     # a local array bound to resp['hist'] and scaled in place
                     if name:
-                        for b in S_.ev.buffers:
+                        for b in sorted({S_.ev.bname(x) for x in S_.ev.buffers}):
                             init, curv = S_.ev.env.get("<init:%s>" % b), S_.ev.env.get("<cur:%s>" % b)
                             if init is None or curv is None or is_unknown(init) or is_unknown(curv) or isinstance(init, (tuple, DictValue)) or isinstance(curv, (tuple, DictValue)):
                                 continue
